@@ -64,6 +64,24 @@ def helper_storage_params(b):
     return out
 
 
+def judged_through_callers(b):
+    """a helper introduced after the review that only works on storage handed to it (`&mut self`, `&mut [word]`): the
+    length it must respect is known at its call sites, where its events are spliced in. A new helper that *builds* a
+    vector (it contains a Bvf/Bvd aggregate or returns one built by zeros()/ones()) is self-contained and is judged on
+    its own like any reviewed function."""
+    if not is_new_private_helper(b):
+        return False
+    if b.kind == "Closure":
+        return True
+    for bb, i, st in b.iter_stmts():
+        if st["s"] == "assign" and st["r"]["k"] == "agg" and st["r"].get("ak") == "adt" and st["r"]["adt"].split("::")[-1] in ("Bvf", "Bvd"):
+            return False
+    ret = mir.short_ty(b.local_ty(0))
+    if mir.ty_family(ret) in ("Bvf", "Bvd") or "Bvf<" in ret or "Bvd" in ret.replace("&Bvd", ""):
+        return False
+    return True
+
+
 def is_new_private_helper(b):
     """a non-public function (or a closure of one) that is not part of the reviewed tree's census"""
     if mir.CENSUS is None:
